@@ -158,6 +158,12 @@ func track(f *os.File, name string) *File {
 
 func Open(name string) (*File, error) {
 	visible("fsopen", name)
+	if fi, err := os.Stat(name); err == nil && fi.Mode()&os.ModeNamedPipe != 0 && vrt.W != nil {
+		// opening a FIFO without a writer blocks for ever: block virtually, so the
+		// scheduler keeps running (and reports the stuck reader) instead of hanging natively
+		var never *vrt.Chan[struct{}]
+		never.Recv("open-fifo:" + name)
+	}
 	f, err := os.Open(name)
 	if err != nil {
 		return nil, err
